@@ -47,6 +47,19 @@ impl paseto_core::encodings::Payload for Strict {
         Err("strict payload type refuses".into())
     }
 }
+/// decodes anything, counting, with the header suffix "x" ("v4x.local.")
+pub struct LenientX(Vec<u8>);
+impl paseto_core::encodings::Payload for LenientX {
+    const SUFFIX: &'static str = "x";
+    fn encode(self, mut w: impl paseto_core::encodings::WriteBytes) -> Result<(), Box<dyn std::error::Error + Send + Sync>> {
+        w.write(&self.0);
+        Ok(())
+    }
+    fn decode(p: &[u8]) -> Result<Self, Box<dyn std::error::Error + Send + Sync>> {
+        DECODES.with(|c| c.set(c.get() + 1));
+        Ok(LenientX(p.to_vec()))
+    }
+}
 pub struct CountingValidator<M>(std::marker::PhantomData<M>);
 impl<M> Validate for CountingValidator<M> {
     type Claims = M;
@@ -87,6 +100,23 @@ macro_rules! unseal_with {
             })
         }
     }};
+}
+
+/// the same through the payload type with suffix "x"
+fn unseal_counting_x(backend: &str, purpose: &str, key: &[u8], tok: &str, aad: &[u8]) -> Obs {
+    macro_rules! go {
+        ($V:ty) => {
+            unseal_with!($V, purpose, LenientX, key, tok, aad)
+        };
+    }
+    match backend {
+        "v1" => go!(V1),
+        "v2" => go!(V2),
+        "v3" => go!(V3),
+        "v3-aws-lc" => go!(V3L),
+        "v4" => go!(V4),
+        _ => go!(V4S),
+    }
 }
 
 fn unseal_counting(backend: &str, purpose: &str, strict: bool, key: &[u8], tok: &str, aad: &[u8]) -> Obs {
@@ -243,6 +273,66 @@ pub fn run(ctx: &Ctx) {
                         check_fault(&bs, f, &mut rep);
                         if rep.violations.len() >= 30 {
                             break;
+                        }
+                    }
+                }
+            }
+        }
+    }
+    // footer and assertion of every length 1..=140 with the first / last byte changed (a fixed-capacity buffer for the
+    // authenticated data that drops the last byte of a piece of one particular length), and relabelling between a plain
+    // and a suffixed payload type in both directions AFTER both types have been used in the process (a header cached
+    // from the first use)
+    {
+        let mut g = SplitMix64::new(ctx.seed ^ 0xF007C12);
+        for (bi, b) in bs.iter().enumerate() {
+            let kps = tok::keypairs(b, &mut g, 1);
+            for purpose in ["local", "public"] {
+                let step = if b.name == "v1" && purpose == "public" && !thorough { 5 } else { 1 };
+                let lk = g.bytes(32);
+                let (sealk, unsealk) = if purpose == "local" { (lk.clone(), lk.clone()) } else { (kps[0].sk.clone(), kps[0].pk.clone()) };
+                for which in ["footer", "assertion"] {
+                    if which == "assertion" && !b.aad {
+                        continue;
+                    }
+                    for len in (1..=140usize).step_by(step).chain([255usize, 256, 257]) {
+                        let swept = content(&mut g, len);
+                        let (footer, a): (Vec<u8>, Vec<u8>) = if which == "footer" { (swept.clone(), if b.aad { b"ia".to_vec() } else { vec![] }) } else { (b"f".to_vec(), swept.clone()) };
+                        let tokstr = if purpose == "local" { (b.local_encrypt)(&sealk, b"7 bytes", &footer, &a, SealVia::Seal) } else { (b.public_sign)(&sealk, b"7 bytes", &footer, &a, SealVia::Seal) };
+                        let Ok(tokstr) = tokstr else { continue };
+                        let Some((payload, ft)) = lab::token_parts(&tokstr) else { continue };
+                        for pos in [len - 1, 0] {
+                            let (mut f2, mut a2) = (ft.clone(), a.clone());
+                            if which == "footer" { f2[pos] ^= 1 } else { a2[pos] ^= 1 };
+                            let f = Fault { kind: "piece-length-sweep", detail: format!("byte {pos} of a {len}-byte {which}"), backend: bi, purpose: if purpose == "local" { "local" } else { "public" }, key: unsealk.clone(), payload: payload.clone(), footer: f2, aad: a2, text: None };
+                            check_fault(&bs, &f, &mut rep);
+                        }
+                        if rep.violations.len() >= 30 {
+                            break;
+                        }
+                    }
+                }
+                // relabel between payload types
+                let a: Vec<u8> = if b.aad { b"ia".to_vec() } else { vec![] };
+                let plain = if purpose == "local" { (b.local_encrypt)(&sealk, b"plain", b"f", &a, SealVia::Seal) } else { (b.public_sign)(&sealk, b"plain", b"f", &a, SealVia::Seal) };
+                let sfx = (b.seal_x)(purpose, &sealk, b"suffixed", b"f", &a);
+                if let (Ok(plain), Ok(sfx)) = (plain, sfx) {
+                    let (h0, hx) = (format!("{}.{purpose}.", b.ver), format!("{}x.{purpose}.", b.ver));
+                    // both types used once, legitimately
+                    let ok0 = unseal_counting(b.name, purpose, false, &unsealk, &plain, &a);
+                    let okx = unseal_counting_x(b.name, purpose, &unsealk, &sfx, &a);
+                    rep.evaluations += 4;
+                    if ok0.0 != "ok" || okx.0 != "ok" {
+                        rep.notes.push(format!("{} {purpose}: control unseal of the plain / suffixed token gave {} / {}", b.name, ok0.0, okx.0));
+                    }
+                    // the plain token offered as the suffixed type and vice versa
+                    let as_x = format!("{hx}{}", &plain[h0.len()..]);
+                    let as_0 = format!("{h0}{}", &sfx[hx.len()..]);
+                    for (what, obs) in [("a plain token relabelled to the suffixed payload type", unseal_counting_x(b.name, purpose, &unsealk, &as_x, &a)), ("a suffixed token relabelled to the plain payload type", unseal_counting(b.name, purpose, false, &unsealk, &as_0, &a))] {
+                        if obs.0 == "ok" || obs.1 != 0 || obs.2 != 0 {
+                            rep.violation(&format!("c12.{}.{purpose}.ran-on-unauthenticated", b.name), format!("{} {purpose}: {what} gave {} with {} decoder call(s) and {} validator call(s)", b.name, obs.0, obs.1, obs.2), json!({"backend": b.name, "purpose": purpose, "fault": "payload-type-relabel", "key": hex::encode(&unsealk), "plain": plain, "suffixed": sfx, "aad": hex::encode(&a)}));
+                        } else {
+                            rep.nontrivial(format!("{}|{purpose}|payload-type-relabel", b.name));
                         }
                     }
                 }
